@@ -16,4 +16,10 @@ for pid in sorted(p for p in drv.PROPS if p in claimed):
     hok, hlog, _ = drv.build_harness(pid)
     if not hok:
         print("setup: harness for %s did not build:\n%s" % (pid, hlog[-2000:])); bad += 1
+# translated functions: warm the per-source cache of the equivalence lemmas (./check runs the same command)
+import subprocess
+for pid in sorted(p for p in drv.PROPS if p in claimed):
+    if os.path.exists(os.path.join(ROOT, 'tools', 'gen', pid + '.spec')):
+        r = subprocess.run([os.path.join(ROOT, 'tools', 'genequiv.sh'), pid], cwd=ROOT, stdout=subprocess.PIPE, stderr=subprocess.STDOUT, text=True)
+        print((r.stdout.strip().splitlines() or ['GENEQUIV %s: no output' % pid])[-1])
 sys.exit(1 if bad else 0)
